@@ -21,6 +21,9 @@ mod syntax_term;
 mod fmtworker;
 mod c19;
 mod c05fmt;
+mod price;
+mod c09;
+mod c10;
 
 pub struct Opts {
     pub seed: u64,
@@ -94,6 +97,8 @@ fn main() {
         "c19" => c19::run(&o),
         "c05fmt" => c05fmt::run(&o),
         "fmt-worker" => fmtworker::serve(),
+        "c09" => c09::run(&o),
+        "c10" => c10::run(&o),
         _ => {
             eprintln!("unknown property {}", prop);
             std::process::exit(2);
